@@ -349,6 +349,14 @@ RealOrderMenu ==
   {Agg(<<ItE("min", Pick(p[1], p[2]), "lo"), ItE("max", Pick(p[1], p[2]), "hi"), CountStar>>, <<>>, NoE, NoH, FALSE, NoLimit, "none") : p \in RealPairs}
   \cup {Agg(<<ItE("key", Pick(p[1], p[2]), "x"), CountStar>>, <<Pick(p[1], p[2])>>, NoE, NoH, FALSE, NoLimit, "none") : p \in RealPairs}
   \cup {Agg(<<[a |-> "percentile", e |-> Pick(p[1], p[2]), pn |-> 1, pd |-> 2, as |-> "p50", wrap |-> NoE]>>, <<>>, NoE, NoH, FALSE, NoLimit, "none") : p \in RealPairs}
+\* PERCENTILE over values that are equal but distinguishable (0.0 / -0.0), long inputs fed line by line: the shown value is the one a single stable sort of the
+\* prefix picks, however often the table was rebuilt before (groups of more than 20 values: beyond the sizes for which every sort is an insertion sort)
+\* v = 1: 0.0, v = 2: -0.0, v = 3: 0.5, otherwise -0.5 (the zeros are the median, a few other values make a sort move elements around)
+AroundZero == CaseE(<<<<CmpE("=", V, One), Lit(RealV(0, 1))>>, <<CmpE("=", V, Two), Lit(NZero)>>, <<CmpE("=", V, Lit(IntV(3))), Lit(RealV(1, 2))>>>>, Lit(RealV(-1, 2)))
+PercentileZeroMenu ==
+  {Agg(<<[a |-> "percentile", e |-> AroundZero, pn |-> pn, pd |-> 4, as |-> "p", wrap |-> NoE], CountStar>>, <<>>, NoE, NoH, FALSE, NoLimit, "none") : pn \in {1, 2, 3}}
+  \cup {Agg(<<KeyK, [a |-> "percentile", e |-> AroundZero, pn |-> 1, pd |-> 2, as |-> "p", wrap |-> NoE]>>, <<K>>, NoE, NoH, FALSE, NoLimit, "none")}
+LinesAroundZero == {KV(A, IntV(1)), KV(A, IntV(2)), KV(A, IntV(1)), KV(A, IntV(2)), KV(B, IntV(1)), KV(B, IntV(2)), KV(A, IntV(3)), KV(A, IntV(4)), KV(B, IntV(3))}
 LinesPick == {KV(A, IntV(1)), KV(A, IntV(2)), KV(B, IntV(1)), KV(B, IntV(2))}
 
 \* C05: join on a numeric column of different types on the two sides (INT = REAL), incl. values around 2^53
